@@ -211,9 +211,10 @@ Arguments farkas_sound {V} veqb veqb_eq vars rows ys _ x _.
 
 Lemma pvar_eqb_eq u v : pvar_eqb u v = true <-> u = v.
 Proof.
-  destruct u as [|i c|i], v as [|j d|j]; simpl; try (split; [discriminate|discriminate]);
+  destruct u as [|i c|i| |c], v as [|j d|j| |d]; simpl; try (split; [discriminate|discriminate]);
     try (split; reflexivity).
   - rewrite andb_true_iff, !Nat.eqb_eq. split; [intros [-> ->]; reflexivity|intros [= -> ->]; auto].
+  - rewrite Nat.eqb_eq. split; [intros ->; reflexivity|intros [= ->]; reflexivity].
   - rewrite Nat.eqb_eq. split; [intros ->; reflexivity|intros [= ->]; reflexivity].
 Qed.
 
@@ -268,19 +269,147 @@ Qed.
 Lemma den_single {V} (x : V -> Q) q v : den x [(q, v)] == q * x v.
 Proof. unfold den. simpl. ring. Qed.
 
-Lemma den_l_spent I b pay i : den (ps_env I b pay) (l_spent I i) == spent I pay i.
+Lemma den_l_spent I b pay g bc i : den (ps_env_g I b pay g bc) (l_spent I i) == spent I pay i.
 Proof.
   unfold den, l_spent, spent. rewrite map_map. apply Qsum_map_ext. intros c _. simpl. ring.
 Qed.
 
-Lemma den_l_paid I A b pay c : den (ps_env I b pay) (l_paid A c) == paid_for A pay c.
+Lemma den_l_paid I A b pay g bc c : den (ps_env_g I b pay g bc) (l_paid A c) == paid_for A pay c.
 Proof.
   unfold den, l_paid, paid_for. rewrite map_map. apply Qsum_map_ext. intros i _. simpl. ring.
 Qed.
 
-Lemma den_l_left I b pay i : den (ps_env I b pay) (l_left I i) == leftover I b pay i.
+Lemma den_l_left I b pay g bc i : den (ps_env_g I b pay g bc) (l_left I i) == leftover I b pay i.
 Proof.
   unfold l_left. rewrite den_cons, den_lscale, den_l_spent. simpl. unfold leftover. ring.
+Qed.
+
+Lemma den_claims I A b pay g bc c :
+  den (ps_env_g I b pay g bc) (map (fun i => (1, VM i)) (supporters A c))
+  == Qsum (map (stable_claim I b pay) (supporters A c)).
+Proof. unfold den. rewrite map_map. apply Qsum_map_ext. intros i _. simpl. ring. Qed.
+
+Lemma sat_app {V} (x : V -> Q) r1 r2 : sat x r1 -> sat x r2 -> sat x (r1 ++ r2).
+Proof. intros H1 H2 r Hr. apply in_app_or in Hr. destruct Hr; [apply H1|apply H2]; assumption. Qed.
+
+Lemma sat_app_inv {V} (x : V -> Q) r1 r2 : sat x (r1 ++ r2) -> sat x r1 /\ sat x r2.
+Proof. intros H. split; intros r Hr; apply H; apply in_or_app; [left|right]; exact Hr. Qed.
+
+(* the relaxed stability row of project c *)
+Lemma den_s5_row I A b pay R c :
+  den (ps_env_rel I b pay R) (fst (s5_row I A (Some (kind_of R)) false c)) - s5_const I (Some (kind_of R)) c
+  == Qsum (map (stable_claim I b pay) (supporters A c)) - relaxed_cost I R c.
+Proof.
+  unfold s5_row, ps_env_rel. simpl fst. rewrite den_app, den_claims.
+  destruct R; simpl; unfold den; simpl; ring.
+Qed.
+
+Definition env_of (I : inst) (b : Q) (pay : payfun) (rel : option relax) : pvar -> Q :=
+  match rel with None => ps_env I b pay | Some R => ps_env_rel I b pay R end.
+
+Lemma s5_row_sat I A b pay rel c (sel : bool) :
+  Qsum (map (stable_claim I b pay) (supporters A c)) <= rcost I rel c + (if sel then relax_INF I else 0) ->
+  den (env_of I b pay rel) (fst (s5_row I A (option_map kind_of rel) sel c))
+  <= snd (s5_row I A (option_map kind_of rel) sel c).
+Proof.
+  intros H. destruct rel as [R|]; simpl option_map; simpl env_of.
+  - pose proof (den_s5_row I A b pay R c) as E. unfold s5_row in *. simpl fst in *. simpl snd. simpl rcost in H.
+    unfold s5_const in *. lra.
+  - unfold s5_row, ps_env. simpl fst. simpl snd. rewrite den_app, den_claims.
+    simpl s5_terms. simpl s5_const. simpl rcost in H. unfold den at 1. simpl. lra.
+Qed.
+
+(* every (relaxed) price system solves the linear system; with [rng] also the range rows, provided the
+   relaxation's parameters are within the ranges the MIP imposes *)
+Lemma ps_rows_g_complete I A W b pay stable exh lb rel rng :
+  price_system_g I A W b pay (rcost I rel) stable exh -> 0 <= b ->
+  (lb = true -> budget I <= Qnat (length A) * b) ->
+  (forall R, rel = Some R -> rng = true -> stable = true /\ relax_range I A W b pay R) ->
+  sat (env_of I b pay rel) (ps_rows_g I A W stable lb (option_map kind_of rel) rng).
+Proof.
+  intros (H0a & H0b & HP0 & HC1 & HC2 & HC3 & HC4 & HC5) Hb Hlb Hrng.
+  assert (Henv : exists g bc, env_of I b pay rel = ps_env_g I b pay g bc).
+  { destruct rel as [R|]; simpl; [exists (relax_g R), (relax_bc R)|exists 0, (fun _ => 0)]; reflexivity. }
+  destruct Henv as [g [bc Henv]].
+  unfold ps_rows_g.
+  apply sat_app.
+  { rewrite Henv. intros r Hr. destruct Hr as [<-|[]]. simpl fst. simpl snd. rewrite den_single. simpl. lra. }
+  apply sat_app.
+  { rewrite Henv. intros r Hr. apply in_flat_map in Hr. destruct Hr as [i [Hi Hr]]. apply in_map_iff in Hr.
+    destruct Hr as [c [<- Hc]]. simpl fst. simpl snd. rewrite den_single. simpl.
+    apply in_voters in Hi. apply in_all_projects in Hc. specialize (HP0 i c Hi Hc). lra. }
+  apply sat_app.
+  { rewrite Henv. intros r Hr. apply in_flat_map in Hr. destruct Hr as [i [Hi Hr]]. apply in_map_iff in Hr.
+    destruct Hr as [c [<- Hc]]. simpl fst. simpl snd. rewrite den_single. simpl.
+    apply filter_In in Hc. destruct Hc as [Hc Ha]. apply negb_true_iff in Ha.
+    apply in_voters in Hi. apply in_all_projects in Hc. rewrite (HC1 i c Hi Hc Ha). lra. }
+  apply sat_app.
+  { rewrite Henv. intros r Hr. apply in_map_iff in Hr. destruct Hr as [i [<- Hi]]. simpl fst. simpl snd.
+    rewrite den_cons, den_l_spent. simpl. apply in_voters in Hi. specialize (HC2 i Hi). lra. }
+  apply sat_app.
+  { rewrite Henv. intros r Hr. apply in_flat_map in Hr. destruct Hr as [c [Hc Hr]].
+    specialize (HC3 c Hc).
+    destruct Hr as [<-|[<-|[]]]; simpl fst; simpl snd.
+    - rewrite den_l_paid. rewrite HC3. apply Qle_refl.
+    - rewrite den_lscale, den_l_paid. rewrite HC3. lra. }
+  apply sat_app.
+  { rewrite Henv. intros r Hr. apply in_map_iff in Hr. destruct Hr as [c [<- Hc]]. simpl fst. simpl snd.
+    apply in_not_selected in Hc. destruct Hc as [Hc Hn].
+    rewrite den_l_paid. rewrite (HC4 c Hc Hn). apply Qle_refl. }
+  apply sat_app.
+  { destruct stable.
+    - apply sat_app.
+      { rewrite Henv. intros r Hr. apply in_flat_map in Hr. destruct Hr as [i [Hi Hr]]. apply in_map_iff in Hr.
+        destruct Hr as [c [<- Hc]]. simpl fst. simpl snd.
+        rewrite den_cons, den_single. simpl.
+        apply in_all_projects in Hc. pose proof (maxpay_ge I pay i c Hc) as Hm.
+        pose proof (Q.le_max_l (maxpay I pay i) (leftover I b pay i)) as Hm2.
+        unfold stable_claim. lra. }
+      apply sat_app.
+      { rewrite Henv. intros r Hr. apply in_map_iff in Hr. destruct Hr as [i [<- Hi]]. simpl fst. simpl snd.
+        rewrite den_cons, den_l_left. simpl.
+        pose proof (Q.le_max_r (maxpay I pay i) (leftover I b pay i)) as Hm2.
+        unfold stable_claim. lra. }
+      apply sat_app.
+      { rewrite Henv. intros r Hr. apply in_map_iff in Hr. destruct Hr as [i [<- Hi]]. simpl fst. simpl snd.
+        rewrite den_single. simpl. apply in_voters in Hi.
+        pose proof (maxpay_nonneg I A pay i HP0 Hi) as Hm.
+        pose proof (Q.le_max_l (maxpay I pay i) (leftover I b pay i)) as Hm2.
+        unfold stable_claim. lra. }
+      intros r Hr. apply in_map_iff in Hr. destruct Hr as [c [<- Hc]].
+      apply in_not_selected in Hc. destruct Hc as [Hc Hn].
+      apply s5_row_sat. specialize (HC5 c Hc Hn). simpl in HC5. lra.
+    - rewrite Henv. intros r Hr. apply in_map_iff in Hr. destruct Hr as [c [<- Hc]]. simpl fst. simpl snd.
+      apply in_not_selected in Hc. destruct Hc as [Hc Hn].
+      eapply Qle_trans; [|apply (HC5 c Hc Hn)].
+      rewrite den_flat_map. apply Qle_lteq. right.
+      apply Qsum_map_ext. intros i _. apply den_l_left. }
+  apply sat_app.
+  { rewrite Henv. destruct lb; [|intros r []]. intros r Hr. destruct Hr as [<-|[]]. simpl fst. simpl snd.
+    rewrite den_single. simpl. specialize (Hlb eq_refl). lra. }
+  destruct rel as [R|]; simpl option_map; [|intros r []].
+  destruct rng; [|intros r []].
+  destruct (Hrng R eq_refl eq_refl) as [-> [Hsel Hk]].
+  unfold range_rows. apply sat_app.
+  { intros r Hr. apply in_map_iff in Hr. destruct Hr as [c [<- Hc]].
+    apply (s5_row_sat I A b pay (Some R) c true). simpl rcost. apply Hsel. exact Hc. }
+  simpl env_of. unfold ps_env_rel.
+  destruct R as [g0|g0|l|l|g0 l]; simpl kind_of; cbv iota.
+  - intros r Hr. destruct Hr as [<-|[]]. simpl fst. simpl snd. rewrite den_single. simpl. lra.
+  - intros r Hr. destruct Hr as [<-|[]]. simpl fst. simpl snd. rewrite den_single. simpl. lra.
+  - intros r Hr. apply in_flat_map in Hr. destruct Hr as [c [Hc Hr]]. apply in_all_projects in Hc.
+    destruct (Hk c Hc) as [Hlo Hcap].
+    destruct Hr as [<-|[<-|[<-|[]]]]; simpl fst; simpl snd; rewrite den_single; simpl;
+      destruct (memb c W); try lra.
+  - intros r Hr. apply in_map_iff in Hr. destruct Hr as [c [<- Hc]]. apply in_all_projects in Hc.
+    simpl fst. simpl snd. rewrite den_single. simpl. specialize (Hk c Hc). lra.
+  - destruct Hk as (Hg & Hnn & Hsum). apply sat_app; [|apply sat_app].
+    + intros r Hr. destruct Hr as [<-|[]]. simpl fst. simpl snd. rewrite den_single. simpl. lra.
+    + intros r Hr. apply in_map_iff in Hr. destruct Hr as [c [<- Hc]]. apply in_all_projects in Hc.
+      simpl fst. simpl snd. rewrite den_single. simpl. specialize (Hnn c Hc). lra.
+    + intros r Hr. destruct Hr as [<-|[]]. simpl fst. simpl snd.
+      eapply Qle_trans; [|exact Hsum]. unfold den. rewrite map_map. apply Qle_lteq. right.
+      apply Qsum_map_ext. intros c _. simpl. ring.
 Qed.
 
 Lemma ps_rows_complete I A W b pay stable exh lb :
@@ -288,72 +417,22 @@ Lemma ps_rows_complete I A W b pay stable exh lb :
   (lb = true -> budget I <= Qnat (length A) * b) ->
   sat (ps_env I b pay) (ps_rows I A W stable lb).
 Proof.
-  intros (H0a & H0b & HP0 & HC1 & HC2 & HC3 & HC4 & HC5) Hb Hlb r Hr.
-  unfold ps_rows in Hr.
-  apply in_app_or in Hr. destruct Hr as [Hr|Hr].
-  { destruct Hr as [<-|[]]. simpl fst. simpl snd. rewrite den_single. simpl. lra. }
-  apply in_app_or in Hr. destruct Hr as [Hr|Hr].
-  { apply in_flat_map in Hr. destruct Hr as [i [Hi Hr]]. apply in_map_iff in Hr.
-    destruct Hr as [c [<- Hc]]. simpl fst. simpl snd. rewrite den_single. simpl.
-    apply in_voters in Hi. apply in_all_projects in Hc. specialize (HP0 i c Hi Hc). lra. }
-  apply in_app_or in Hr. destruct Hr as [Hr|Hr].
-  { apply in_flat_map in Hr. destruct Hr as [i [Hi Hr]]. apply in_map_iff in Hr.
-    destruct Hr as [c [<- Hc]]. simpl fst. simpl snd. rewrite den_single. simpl.
-    apply filter_In in Hc. destruct Hc as [Hc Ha]. apply negb_true_iff in Ha.
-    apply in_voters in Hi. apply in_all_projects in Hc. rewrite (HC1 i c Hi Hc Ha). lra. }
-  apply in_app_or in Hr. destruct Hr as [Hr|Hr].
-  { apply in_map_iff in Hr. destruct Hr as [i [<- Hi]]. simpl fst. simpl snd.
-    rewrite den_cons, den_l_spent. simpl. apply in_voters in Hi. specialize (HC2 i Hi). lra. }
-  apply in_app_or in Hr. destruct Hr as [Hr|Hr].
-  { apply in_flat_map in Hr. destruct Hr as [c [Hc Hr]].
-    specialize (HC3 c Hc).
-    destruct Hr as [<-|[<-|[]]]; simpl fst; simpl snd.
-    - rewrite den_l_paid. rewrite HC3. apply Qle_refl.
-    - rewrite den_lscale, den_l_paid. rewrite HC3. lra. }
-  apply in_app_or in Hr. destruct Hr as [Hr|Hr].
-  { apply in_map_iff in Hr. destruct Hr as [c [<- Hc]]. simpl fst. simpl snd.
-    apply in_not_selected in Hc. destruct Hc as [Hc Hn].
-    rewrite den_l_paid. rewrite (HC4 c Hc Hn). apply Qle_refl. }
-  apply in_app_or in Hr. destruct Hr as [Hr|Hr].
-  - destruct stable.
-    + apply in_app_or in Hr. destruct Hr as [Hr|Hr].
-      { apply in_flat_map in Hr. destruct Hr as [i [Hi Hr]]. apply in_map_iff in Hr.
-        destruct Hr as [c [<- Hc]]. simpl fst. simpl snd.
-        rewrite den_cons, den_single. simpl.
-        apply in_all_projects in Hc. pose proof (maxpay_ge I pay i c Hc) as Hm.
-        pose proof (Q.le_max_l (maxpay I pay i) (leftover I b pay i)) as Hm2.
-        unfold stable_claim. lra. }
-      apply in_app_or in Hr. destruct Hr as [Hr|Hr].
-      { apply in_map_iff in Hr. destruct Hr as [i [<- Hi]]. simpl fst. simpl snd.
-        rewrite den_cons, den_l_left. simpl.
-        pose proof (Q.le_max_r (maxpay I pay i) (leftover I b pay i)) as Hm2.
-        unfold stable_claim. lra. }
-      apply in_app_or in Hr. destruct Hr as [Hr|Hr].
-      { apply in_map_iff in Hr. destruct Hr as [i [<- Hi]]. simpl fst. simpl snd.
-        rewrite den_single. simpl. apply in_voters in Hi.
-        pose proof (maxpay_nonneg I A pay i HP0 Hi) as Hm.
-        pose proof (Q.le_max_l (maxpay I pay i) (leftover I b pay i)) as Hm2.
-        unfold stable_claim. lra. }
-      apply in_map_iff in Hr. destruct Hr as [c [<- Hc]]. simpl fst. simpl snd.
-      apply in_not_selected in Hc. destruct Hc as [Hc Hn].
-      eapply Qle_trans; [|apply (HC5 c Hc Hn)].
-      unfold den. rewrite map_map. apply Qle_lteq. right.
-      apply Qsum_map_ext. intros i _. simpl. ring.
-    + apply in_map_iff in Hr. destruct Hr as [c [<- Hc]]. simpl fst. simpl snd.
-      apply in_not_selected in Hc. destruct Hc as [Hc Hn].
-      eapply Qle_trans; [|apply (HC5 c Hc Hn)].
-      rewrite den_flat_map. apply Qle_lteq. right.
-      apply Qsum_map_ext. intros i _. apply den_l_left.
-  - destruct lb; [|contradiction]. destruct Hr as [<-|[]]. simpl fst. simpl snd.
-    rewrite den_single. simpl. specialize (Hlb eq_refl). lra.
+  intros Hps Hb Hlb.
+  apply (ps_rows_g_complete I A W b pay stable exh lb None false Hps Hb Hlb). discriminate.
 Qed.
 
-Theorem check_no_ps_sound I A W stable exh lb ys :
-  check_no_ps I A W stable exh lb ys = true ->
-  ~ exists b pay, price_system I A W b pay stable exh /\ (lb = true -> budget I <= Qnat (length A) * b).
+Lemma budget_nonneg_of_ps I A W b pay rc stable exh :
+  (0 < length A)%nat -> price_system_g I A W b pay rc stable exh -> 0 <= b.
 Proof.
-  unfold check_no_ps. intros H [b [pay [Hps Hlb]]].
-  apply orb_true_iff in H. destruct H as [H|H]; [apply orb_true_iff in H; destruct H as [H|H]|].
+  intros Hn (_ & _ & HP0 & _ & HC2 & _).
+  eapply Qle_trans; [apply (spent_nonneg I A pay 0%nat HP0 Hn)|apply HC2; exact Hn].
+Qed.
+
+Lemma base_infeasible I A W stable exh :
+  negb (Qleb (tcost I W) (budget I)) || (exh && negb (is_exhaustiveb I W)) = true ->
+  forall b pay rc, ~ price_system_g I A W b pay rc stable exh.
+Proof.
+  intros H b pay rc Hps. apply orb_true_iff in H. destruct H as [H|H].
   - apply negb_true_iff in H. apply Qleb_false_iff in H.
     destruct Hps as (H0a & _). unfold C0a in H0a. lra.
   - apply andb_true_iff in H. destruct H as [He H]. apply negb_true_iff in H.
@@ -361,12 +440,61 @@ Proof.
     assert (is_exhaustiveb I W = true); [|congruence].
     unfold is_exhaustiveb. apply forallb_forall. intros c Hc. apply in_not_selected in Hc.
     apply Qltb_iff. apply H0b; tauto.
-  - apply andb_true_iff in H. destruct H as [Hn H]. apply Nat.ltb_lt in Hn.
-    assert (Hb : 0 <= b).
-    { destruct Hps as (_ & _ & HP0 & _ & HC2 & _).
-      eapply Qle_trans; [apply (spent_nonneg I A pay 0%nat HP0 Hn)|apply HC2; exact Hn]. }
-    apply (farkas_sound pvar_eqb pvar_eqb_eq _ _ _ H (ps_env I b pay)).
-    eapply ps_rows_complete; eassumption.
+Qed.
+
+Theorem check_no_ps_sound I A W stable exh lb ys :
+  check_no_ps I A W stable exh lb ys = true ->
+  ~ exists b pay, price_system I A W b pay stable exh /\ (lb = true -> budget I <= Qnat (length A) * b).
+Proof.
+  unfold check_no_ps. intros H [b [pay [Hps Hlb]]].
+  apply orb_true_iff in H. destruct H as [H|H]; [exact (base_infeasible I A W stable exh H b pay _ Hps)|].
+  apply andb_true_iff in H. destruct H as [Hn H]. apply Nat.ltb_lt in Hn.
+  pose proof (budget_nonneg_of_ps I A W b pay _ stable exh Hn Hps) as Hb.
+  apply (farkas_sound pvar_eqb pvar_eqb_eq _ _ _ H (ps_env I b pay)).
+  eapply ps_rows_complete; eassumption.
+Qed.
+
+(* relaxations: (1) no relaxed price system of this class whatever the parameters *)
+Theorem check_no_relaxed_ps_sound I A W exh lb k ys :
+  check_no_relaxed_ps I A W exh lb k ys = true ->
+  ~ exists b pay R, kind_of R = k /\ relaxed_price_system I A W b pay R exh
+                    /\ (lb = true -> budget I <= Qnat (length A) * b).
+Proof.
+  unfold check_no_relaxed_ps. intros H [b [pay [R [Hk [Hps Hlb]]]]].
+  apply orb_true_iff in H. destruct H as [H|H]; [exact (base_infeasible I A W true exh H b pay _ Hps)|].
+  apply andb_true_iff in H. destruct H as [Hn H]. apply Nat.ltb_lt in Hn.
+  pose proof (budget_nonneg_of_ps I A W b pay _ true exh Hn Hps) as Hb.
+  apply (farkas_sound pvar_eqb pvar_eqb_eq _ _ _ H (ps_env_rel I b pay R)).
+  subst k. apply (ps_rows_g_complete I A W b pay true exh lb (Some R) false Hps Hb Hlb). discriminate.
+Qed.
+
+Lemma den_objective I b pay R t :
+  relax_objective I R <= t ->
+  den (ps_env_rel I b pay R) (fst (objective_row I (kind_of R) t)) <= snd (objective_row I (kind_of R) t).
+Proof.
+  intros H. unfold ps_env_rel.
+  destruct R as [g0|g0|l|l|g0 l]; simpl kind_of; unfold objective_row; simpl fst; simpl snd; simpl in H;
+    try (rewrite den_single; simpl; lra);
+    (eapply Qle_trans; [|exact H]; unfold den; rewrite map_map; apply Qle_lteq; right;
+     apply Qsum_map_ext; intros c _; simpl; ring).
+Qed.
+
+(* (2) within the ranges the MIP imposes, no relaxed price system for W has objective <= t *)
+Theorem check_objective_lower_sound I A W exh lb k t ys :
+  check_objective_lower I A W exh lb k t ys = true ->
+  ~ exists b pay R, kind_of R = k /\ relaxed_price_system I A W b pay R exh
+                    /\ (lb = true -> budget I <= Qnat (length A) * b)
+                    /\ relax_range I A W b pay R /\ relax_objective I R <= t.
+Proof.
+  unfold check_objective_lower. intros H [b [pay [R [Hk [Hps [Hlb [Hr Ho]]]]]]].
+  apply orb_true_iff in H. destruct H as [H|H]; [exact (base_infeasible I A W true exh H b pay _ Hps)|].
+  apply andb_true_iff in H. destruct H as [Hn H]. apply Nat.ltb_lt in Hn.
+  pose proof (budget_nonneg_of_ps I A W b pay _ true exh Hn Hps) as Hb.
+  apply (farkas_sound pvar_eqb pvar_eqb_eq _ _ _ H (ps_env_rel I b pay R)).
+  subst k. apply sat_app.
+  - apply (ps_rows_g_complete I A W b pay true exh lb (Some R) true Hps Hb Hlb).
+    intros R' [= <-] _. split; [reflexivity|exact Hr].
+  - intros r [<-|[]]. apply den_objective. exact Ho.
 Qed.
 
 (* ================================================================================================ *)
@@ -397,14 +525,14 @@ Proof.
     [apply Nat.ltb_lt in H2|apply Nat.ltb_lt]; exact H2.
 Qed.
 
-Theorem check_ps_eps_sound eps I A W b P stable exh :
-  check_ps_eps eps I A W b P stable exh = true ->
-  price_system_tol I A W b (pay_of P) eps stable exh.
+Theorem check_ps_eps_g_sound eps I A W b P stable exh rel :
+  check_ps_eps_g eps I A W b P stable exh rel = true ->
+  price_system_g_tol I A W b (pay_of P) (rcost I rel) eps stable exh.
 Proof.
-  unfold check_ps_eps. intros H.
+  unfold check_ps_eps_g. intros H.
   repeat (apply andb_true_iff in H; destruct H as [H ?]).
   rename H into H0a, H6 into H0b, H5 into HP0, H4 into HC1, H3 into HC2, H2 into HC3, H1 into HC4, H0 into HC5.
-  unfold price_system_tol. repeat split.
+  unfold price_system_g_tol. repeat split.
   - apply Qleb_iff in H0a. exact H0a.
   - intros He c Hc Hn. rewrite He in H0b. simpl in H0b. rewrite forallb_forall in H0b.
     apply Qltb_iff. apply H0b. apply in_not_selected. tauto.
@@ -426,11 +554,11 @@ Proof.
       apply in_not_selected; tauto.
 Qed.
 
-Lemma price_system_tol_0 I A W b pay stable exh :
-  price_system_tol I A W b pay 0 stable exh -> price_system I A W b pay stable exh.
+Lemma price_system_g_tol_0 I A W b pay rc stable exh :
+  price_system_g_tol I A W b pay rc 0 stable exh -> price_system_g I A W b pay rc stable exh.
 Proof.
   intros (H0a & H0b & HP0 & HC1 & HC2 & HC3 & HC4 & HC5).
-  unfold price_system. refine (conj H0a (conj H0b (conj _ (conj HC1 (conj _ (conj _ (conj _ _))))))).
+  unfold price_system_g. refine (conj H0a (conj H0b (conj _ (conj HC1 (conj _ (conj _ (conj _ _))))))).
   - intros i c Hi Hc. specialize (HP0 i c Hi Hc). lra.
   - intros i Hi. specialize (HC2 i Hi). lra.
   - intros c Hc. specialize (HC3 c Hc). apply Qle_antisym; lra.
@@ -438,24 +566,24 @@ Proof.
   - destruct stable; intros c Hc Hn; specialize (HC5 c Hc Hn); lra.
 Qed.
 
-Theorem witness_checker_sound I A W b P stable exh :
-  check_witness I A W b P stable exh = true ->
-  feasible I W /\ price_system I A W b (pay_of P) stable exh.
+Theorem witness_checker_g_sound I A W b P stable exh rel :
+  check_witness_g I A W b P stable exh rel = true ->
+  feasible I W /\ price_system_g I A W b (pay_of P) (rcost I rel) stable exh.
 Proof.
-  unfold check_witness. intros H. apply andb_true_iff in H. destruct H as [Hwf H].
-  apply wf_allocb_iff in Hwf. apply check_ps_eps_sound in H. apply price_system_tol_0 in H.
+  unfold check_witness_g. intros H. apply andb_true_iff in H. destruct H as [Hwf H].
+  apply wf_allocb_iff in Hwf. apply check_ps_eps_g_sound in H. apply price_system_g_tol_0 in H.
   split; [|exact H]. destruct Hwf as [Hnd Hr]. destruct H as [H0a _].
   unfold feasible. auto.
 Qed.
 
 (* the checker also accepts every genuine price system (so "exact" in the case files is decided) *)
-Theorem witness_checker_complete I A W b P stable exh :
-  wf_alloc I W -> price_system I A W b (pay_of P) stable exh ->
-  check_witness I A W b P stable exh = true.
+Theorem witness_checker_g_complete I A W b P stable exh rel :
+  wf_alloc I W -> price_system_g I A W b (pay_of P) (rcost I rel) stable exh ->
+  check_witness_g I A W b P stable exh rel = true.
 Proof.
   intros Hwf (H0a & H0b & HP0 & HC1 & HC2 & HC3 & HC4 & HC5).
-  unfold check_witness. apply andb_true_iff. split; [apply wf_allocb_iff; exact Hwf|].
-  unfold check_ps_eps. repeat (apply andb_true_iff; split).
+  unfold check_witness_g. apply andb_true_iff. split; [apply wf_allocb_iff; exact Hwf|].
+  unfold check_ps_eps_g. repeat (apply andb_true_iff; split).
   - apply Qleb_iff. exact H0a.
   - destruct exh; [|reflexivity]. simpl. apply forallb_forall. intros c Hc.
     apply in_not_selected in Hc. apply Qltb_iff. apply H0b; tauto.
@@ -471,6 +599,26 @@ Proof.
   - destruct stable; apply forallb_forall; intros c Hc; apply in_not_selected in Hc; destruct Hc as [Hc Hn];
       apply Qleb_iff; specialize (HC5 c Hc Hn); lra.
 Qed.
+
+(* the instances relaxation = None *)
+Theorem check_ps_eps_sound eps I A W b P stable exh :
+  check_ps_eps eps I A W b P stable exh = true ->
+  price_system_tol I A W b (pay_of P) eps stable exh.
+Proof. exact (check_ps_eps_g_sound eps I A W b P stable exh None). Qed.
+
+Lemma price_system_tol_0 I A W b pay stable exh :
+  price_system_tol I A W b pay 0 stable exh -> price_system I A W b pay stable exh.
+Proof. exact (price_system_g_tol_0 I A W b pay (cost I) stable exh). Qed.
+
+Theorem witness_checker_sound I A W b P stable exh :
+  check_witness I A W b P stable exh = true ->
+  feasible I W /\ price_system I A W b (pay_of P) stable exh.
+Proof. exact (witness_checker_g_sound I A W b P stable exh None). Qed.
+
+Theorem witness_checker_complete I A W b P stable exh :
+  wf_alloc I W -> price_system I A W b (pay_of P) stable exh ->
+  check_witness I A W b P stable exh = true.
+Proof. exact (witness_checker_g_complete I A W b P stable exh None). Qed.
 
 (* ================================================================================================ *)
 (* rounding *)
@@ -540,26 +688,52 @@ Qed.
 (* the validator *)
 
 Lemma round_cmp_le a b : a <= b -> round_cmp a b <= 0.
-Proof. intros H. apply rnd_mono in H. unfold round_cmp. lra. Qed.
+Proof.
+  intros H. unfold round_cmp. destruct (Z.eqb ANCHOR_ROUND_CMP_MODE 1).
+  - assert (H' : a - b <= 0) by lra. apply rnd_mono in H'. rewrite rnd_0 in H'. exact H'.
+  - apply rnd_mono in H. lra.
+Qed.
 
 Lemma round_cmp_eq a b : a == b -> round_cmp a b == 0.
-Proof. intros H. unfold round_cmp. rewrite H. ring. Qed.
+Proof.
+  intros H. unfold round_cmp. destruct (Z.eqb ANCHOR_ROUND_CMP_MODE 1).
+  - assert (H' : a - b == 0) by lra. rewrite H'. apply rnd_0.
+  - rewrite H. ring.
+Qed.
 
 Lemma round_cmp_le_inv a b : round_cmp a b <= 0 -> a <= b + (1 # 100).
 Proof.
-  unfold round_cmp. intros H. destruct (rnd_close a), (rnd_close b). lra.
+  unfold round_cmp. destruct (Z.eqb ANCHOR_ROUND_CMP_MODE 1); intros H.
+  - destruct (rnd_close (a - b)). lra.
+  - destruct (rnd_close a), (rnd_close b). lra.
 Qed.
 
 Lemma round_cmp_eq_inv a b : round_cmp a b == 0 -> a <= b + (1 # 100) /\ b <= a + (1 # 100).
 Proof.
-  unfold round_cmp. intros H. destruct (rnd_close a), (rnd_close b). split; lra.
+  unfold round_cmp. destruct (Z.eqb ANCHOR_ROUND_CMP_MODE 1); intros H.
+  - destruct (rnd_close (a - b)). split; lra.
+  - destruct (rnd_close a), (rnd_close b). split; lra.
 Qed.
 
-Theorem validate_complete I A W b P stable exh :
-  price_system I A W b (pay_of P) stable exh -> validate_ps I A W b P stable exh = true.
+Lemma round_cmp_nonneg a : 0 <= a -> 0 <= round_cmp a 0.
+Proof.
+  intros H. unfold round_cmp. destruct (Z.eqb ANCHOR_ROUND_CMP_MODE 1).
+  - assert (H' : 0 <= a - 0) by lra. apply rnd_mono in H'. rewrite rnd_0 in H'. exact H'.
+  - apply rnd_mono in H. rewrite rnd_0 in *. lra.
+Qed.
+
+Lemma round_cmp_nonneg_inv a : 0 <= round_cmp a 0 -> - (1 # 100) <= a.
+Proof.
+  unfold round_cmp. destruct (Z.eqb ANCHOR_ROUND_CMP_MODE 1); intros H.
+  - destruct (rnd_close (a - 0)). lra.
+  - rewrite rnd_0 in H. destruct (rnd_close a). lra.
+Qed.
+
+Theorem validate_complete_g I A W b P stable exh rel :
+  price_system_g I A W b (pay_of P) (rcost I rel) stable exh -> validate_ps_g I A W b P stable exh rel = true.
 Proof.
   intros (H0a & H0b & HP0 & HC1 & HC2 & HC3 & HC4 & HC5).
-  unfold validate_ps. cbv zeta. repeat (apply andb_true_iff; split).
+  unfold validate_ps_g. cbv zeta. repeat (apply andb_true_iff; split).
   - apply Qleb_iff. exact H0a.
   - destruct exh; [|reflexivity]. simpl. apply forallb_forall. intros c Hc.
     apply in_not_selected in Hc. apply negb_true_iff. apply Qleb_false_iff. apply H0b; tauto.
@@ -567,9 +741,7 @@ Proof.
     apply andb_true_iff. split.
     + destruct (appr A i c) eqn:Ea; [reflexivity|]. simpl.
       rewrite (proj2 (Qeqb_iff _ _) (HC1 i c Hi Hc Ea)). reflexivity.
-    + apply negb_true_iff. apply Qltb_false_iff.
-      pose proof (rnd_mono _ _ (HP0 i c Hi Hc)) as Hm. rewrite rnd_0 in Hm.
-      unfold round_cmp. rewrite rnd_0. lra.
+    + apply negb_true_iff. apply Qltb_false_iff. apply round_cmp_nonneg. apply (HP0 i c Hi Hc).
   - apply forallb_forall. intros i Hi. apply in_voters in Hi.
     apply negb_true_iff. apply Qltb_false_iff. apply round_cmp_le. apply (HC2 i Hi).
   - apply forallb_forall. intros c Hc. apply Qeqb_iff. apply round_cmp_eq. apply (HC3 c Hc).
@@ -581,15 +753,15 @@ Proof.
 Qed.
 
 (* acceptance implies every condition up to 1/100 (C0a, C0b, C1 exactly) *)
-Theorem validate_sound_tol I A W b P stable exh :
-  validate_ps I A W b P stable exh = true ->
-  price_system_tol I A W b (pay_of P) (1 # 100) stable exh.
+Theorem validate_sound_tol_g I A W b P stable exh rel :
+  validate_ps_g I A W b P stable exh rel = true ->
+  price_system_g_tol I A W b (pay_of P) (rcost I rel) (1 # 100) stable exh.
 Proof.
-  unfold validate_ps. cbv zeta. intros H.
+  unfold validate_ps_g. cbv zeta. intros H.
   repeat (apply andb_true_iff in H; destruct H as [H ?]).
   rename H into H0a, H5 into H0b, H4 into HC1, H3 into HC2, H2 into HC3, H1 into HC4, H0 into HC5.
   rewrite forallb2_forall in HC1.
-  unfold price_system_tol.
+  unfold price_system_g_tol.
   refine (conj _ (conj _ (conj _ (conj _ (conj _ (conj _ (conj _ _))))))).
   - apply Qleb_iff in H0a. exact H0a.
   - intros He c Hc Hn. rewrite He in H0b. simpl in H0b. rewrite forallb_forall in H0b.
@@ -598,8 +770,7 @@ Proof.
   - intros i c Hi Hc.
     specialize (HC1 i c (proj2 (in_voters A i) Hi) (proj2 (in_all_projects I c) Hc)).
     apply andb_true_iff in HC1. destruct HC1 as [_ HC1].
-    apply negb_true_iff in HC1. apply Qltb_false_iff in HC1. unfold round_cmp in HC1.
-    rewrite rnd_0 in HC1. destruct (rnd_close (pay_of P i c)). lra.
+    apply negb_true_iff in HC1. apply Qltb_false_iff in HC1. apply round_cmp_nonneg_inv in HC1. exact HC1.
   - intros i c Hi Hc Ha.
     specialize (HC1 i c (proj2 (in_voters A i) Hi) (proj2 (in_all_projects I c) Hc)).
     apply andb_true_iff in HC1. destruct HC1 as [HC1 _]. rewrite Ha in HC1. simpl in HC1.
@@ -617,16 +788,31 @@ Proof.
 Qed.
 
 (* a pair that misses a condition by more than the tolerance is rejected *)
+Theorem validate_sound_margin_g I A W b P stable exh rel :
+  ~ price_system_g_tol I A W b (pay_of P) (rcost I rel) (1 # 100) stable exh ->
+  validate_ps_g I A W b P stable exh rel = false.
+Proof.
+  intros H. destruct (validate_ps_g I A W b P stable exh rel) eqn:E; [|reflexivity].
+  exfalso. apply H. apply validate_sound_tol_g. exact E.
+Qed.
+
+(* the instances relaxation = None *)
+Theorem validate_complete I A W b P stable exh :
+  price_system I A W b (pay_of P) stable exh -> validate_ps I A W b P stable exh = true.
+Proof. exact (validate_complete_g I A W b P stable exh None). Qed.
+
+Theorem validate_sound_tol I A W b P stable exh :
+  validate_ps I A W b P stable exh = true ->
+  price_system_tol I A W b (pay_of P) (1 # 100) stable exh.
+Proof. exact (validate_sound_tol_g I A W b P stable exh None). Qed.
+
 Theorem validate_sound_margin I A W b P stable exh :
   ~ price_system_tol I A W b (pay_of P) (1 # 100) stable exh ->
   validate_ps I A W b P stable exh = false.
-Proof.
-  intros H. destruct (validate_ps I A W b P stable exh) eqn:E; [|reflexivity].
-  exfalso. apply H. apply validate_sound_tol. exact E.
-Qed.
+Proof. exact (validate_sound_margin_g I A W b P stable exh None). Qed.
 
-Lemma price_system_tol_mono I A W b pay e1 e2 stable exh :
-  e1 <= e2 -> price_system_tol I A W b pay e1 stable exh -> price_system_tol I A W b pay e2 stable exh.
+Lemma price_system_g_tol_mono I A W b pay rc e1 e2 stable exh :
+  e1 <= e2 -> price_system_g_tol I A W b pay rc e1 stable exh -> price_system_g_tol I A W b pay rc e2 stable exh.
 Proof.
   intros He (H0a & H0b & HP0 & HC1 & HC2 & HC3 & HC4 & HC5).
   refine (conj H0a (conj H0b (conj _ (conj HC1 (conj _ (conj _ (conj _ _))))))).
@@ -637,13 +823,21 @@ Proof.
   - destruct stable; intros c Hc Hn; specialize (HC5 c Hc Hn); lra.
 Qed.
 
+Lemma price_system_tol_mono I A W b pay e1 e2 stable exh :
+  e1 <= e2 -> price_system_tol I A W b pay e1 stable exh -> price_system_tol I A W b pay e2 stable exh.
+Proof. exact (price_system_g_tol_mono I A W b pay (cost I) e1 e2 stable exh). Qed.
+
 (* the form used by the case files: check_ps_eps with a margin m >= 1/100 rejects => the validator rejects *)
+Theorem margin_checker_g_sound I A W b P stable exh rel m :
+  1 # 100 <= m -> validate_ps_g I A W b P stable exh rel = true ->
+  price_system_g_tol I A W b (pay_of P) (rcost I rel) m stable exh.
+Proof.
+  intros Hm H. eapply price_system_g_tol_mono; [exact Hm|]. apply validate_sound_tol_g. exact H.
+Qed.
 Theorem margin_checker_sound I A W b P stable exh m :
   1 # 100 <= m -> validate_ps I A W b P stable exh = true ->
   price_system_tol I A W b (pay_of P) m stable exh.
-Proof.
-  intros Hm H. eapply price_system_tol_mono; [exact Hm|]. apply validate_sound_tol. exact H.
-Qed.
+Proof. exact (fun Hm H => margin_checker_g_sound I A W b P stable exh None m Hm H). Qed.
 
 (* ================================================================================================ *)
 (* the MIP encoding: soundness *)
@@ -688,26 +882,70 @@ Proof.
   intros c Hc. apply Hb. apply in_all_projects. exact Hc.
 Qed.
 
-Theorem encoding_sound I A alloc stable exh a :
-  ps_constraints I A alloc stable exh a = true -> binary I a ->
-  feasible I (alloc_of I a)
-  /\ price_system I A (alloc_of I a) (a_b a) (pv a) stable exh
-  /\ (forall W0, alloc = Some W0 -> forall c, (c < nproj I)%nat -> (In c (alloc_of I a) <-> In c W0))
-  /\ (alloc = None -> exh = false -> budget I <= a_b a * Qnat (length A)).
+(* what relax_rows (the add_beta part of the MIP) says *)
+Lemma relax_rows_range I R a :
+  relax_rows I R (xv a) = true -> binary I a ->
+  match R with
+  | RMul g => 0 <= g
+  | RAdd g => - relax_INF I <= g
+  | RVec l => forall c, (c < nproj I)%nat ->
+                - relax_INF I <= beta_at l c
+                /\ (if memb c (alloc_of I a) then beta_at l c == 0
+                    else - relax_cap I <= beta_at l c /\ beta_at l c <= relax_cap I)
+  | RVecPos l => forall c, (c < nproj I)%nat -> 0 <= beta_at l c
+  | ROff g l => - relax_INF I <= g /\ (forall c, (c < nproj I)%nat -> 0 <= beta_at l c)
+                /\ Qsum (map (beta_at l) (all_projects I)) <= RELAX_FRACTION * budget I
+  end.
 Proof.
-  intros H Hbin. unfold ps_constraints in H. cbv zeta in H.
-  dand H Hlast. dand H Hc4. dand H Hc3. dand H Hc2. dand H Hc1. dand H Hex. dand H Hc0a.
+  intros H Hbin. destruct R as [g|g|l|l|g l]; simpl in H.
+  - apply Qleb_iff in H. exact H.
+  - apply Qleb_iff in H. exact H.
+  - intros c Hc. rewrite forallb_forall in H. specialize (H c (proj2 (in_all_projects I c) Hc)).
+    dand H H3. dand H H2. apply Qleb_iff in H, H2, H3. split; [exact H|].
+    destruct (memb c (alloc_of I a)) eqn:Em.
+    + apply memb_In in Em. pose proof (x_selected I a c Hbin Em) as Hx.
+      assert (E1 : (1 - xv a c) * relax_cap I == 0) by (rewrite Hx; ring).
+      assert (E2 : (xv a c - 1) * relax_cap I == 0) by (rewrite Hx; ring).
+      apply Qle_antisym; lra.
+    + apply memb_false_In in Em. pose proof (x_unselected I a c Hbin Hc Em) as Hx.
+      assert (E1 : (1 - xv a c) * relax_cap I == relax_cap I) by (rewrite Hx; ring).
+      assert (E2 : (xv a c - 1) * relax_cap I == - relax_cap I) by (rewrite Hx; ring).
+      split; lra.
+  - intros c Hc. rewrite forallb_forall in H. apply Qleb_iff. apply H. apply in_all_projects. exact Hc.
+  - dand H H3. dand H H2. apply Qleb_iff in H, H3. split; [exact H|]. split; [|exact H3].
+    intros c Hc. rewrite forallb_forall in H2. apply Qleb_iff. apply H2. apply in_all_projects. exact Hc.
+Qed.
+
+Theorem encoding_sound_g I A alloc stable exh rel a :
+  ps_constraints_g I A alloc stable exh rel a = true -> binary I a ->
+  feasible I (alloc_of I a)
+  /\ price_system_g I A (alloc_of I a) (a_b a) (pv a) (rcost I rel) stable exh
+  /\ (forall W0, alloc = Some W0 -> forall c, (c < nproj I)%nat -> (In c (alloc_of I a) <-> In c W0))
+  /\ (alloc = None -> exh = false -> budget I <= a_b a * Qnat (length A))
+  /\ (forall R, rel = Some R -> stable = true -> relax_range I A (alloc_of I a) (a_b a) (pv a) R).
+Proof.
+  intros H Hbin. unfold ps_constraints_g in H. cbv zeta in H.
+  dand H Hbeta. dand H Hlast. dand H Hc4. dand H Hc3. dand H Hc2. dand H Hc1. dand H Hex. dand H Hc0a.
   dand H Ham. dand H Hauxb. dand H Hpb.
   rewrite forallb2_forall in Hpb. rewrite forallb2_forall in Hc1. rewrite forallb2_forall in Hc4.
   rewrite forallb_forall in Hauxb, Hc2, Hc3.
   apply Qleb_iff in Hc0a. rewrite <- (tcost_alloc_of I a Hbin) in Hc0a.
   assert (Hsel := x_selected I a). assert (Huns := x_unselected I a).
-  split; [|split; [|split]].
+  assert (Hclaim : stable = true -> forall i, (i < length A)%nat ->
+            stable_claim I (a_b a) (pv a) i <= auxv a i).
+  { intros -> i Hi. simpl in Hlast. dand Hlast Hrow. rewrite forallb_forall in Hlast.
+    specialize (Hlast i (proj2 (in_voters A i) Hi)). dand Hlast Hl2.
+    apply Qleb_iff in Hl2. rewrite forallb_forall in Hlast.
+    unfold stable_claim. apply Q.max_lub; [|exact Hl2].
+    apply maxpay_le.
+    - apply Qleb_iff. apply Hauxb. apply in_voters. exact Hi.
+    - intros c' Hc'. apply Qleb_iff. apply Hlast. apply in_all_projects. exact Hc'. }
+  split; [|split; [|split; [|split]]].
   - unfold feasible. split; [|split].
     + unfold alloc_of. apply NoDup_filter. unfold all_projects. apply seq_NoDup.
     + intros p Hp. apply in_alloc_of in Hp. tauto.
     + exact Hc0a.
-  - unfold price_system.
+  - unfold price_system_g.
     refine (conj Hc0a (conj _ (conj _ (conj _ (conj _ (conj _ (conj _ _))))))).
     + intros He c Hc Hn. rewrite He in Hex. rewrite forallb_forall in Hex.
       specialize (Hex c (proj2 (in_all_projects I c) Hc)). apply Qleb_iff in Hex.
@@ -729,18 +967,14 @@ Proof.
       assert (E : xv a c * bigM I == 0) by (rewrite (Huns c Hbin Hc Hn); ring).
       apply Qle_antisym; lra.
     + destruct stable; simpl in Hlast; dand Hlast Hrow; rewrite forallb_forall in Hlast, Hrow;
-        intros c Hc Hn; specialize (Hrow c (proj2 (in_all_projects I c) Hc)); apply Qleb_iff in Hrow;
-        assert (E : xv a c * bigM I == 0) by (rewrite (Huns c Hbin Hc Hn); ring).
-      * eapply Qle_trans; [apply Qsum_map_le|].
+        intros c Hc Hn; specialize (Hrow c (proj2 (in_all_projects I c) Hc)); apply Qleb_iff in Hrow.
+      * assert (E : xv a c * s5_inf I rel == 0) by (rewrite (Huns c Hbin Hc Hn); ring).
+        eapply Qle_trans; [apply Qsum_map_le|].
         2: { rewrite E in Hrow. rewrite Qplus_0_r in Hrow. exact Hrow. }
         intros i Hi. apply in_supporters in Hi. destruct Hi as [Hi _].
-        specialize (Hlast i (proj2 (in_voters A i) Hi)). dand Hlast Hl2.
-        apply Qleb_iff in Hl2. rewrite forallb_forall in Hlast.
-        unfold stable_claim. apply Q.max_lub; [|exact Hl2].
-        apply maxpay_le.
-        -- apply Qleb_iff. apply Hauxb. apply in_voters. exact Hi.
-        -- intros c' Hc'. apply Qleb_iff. apply Hlast. apply in_all_projects. exact Hc'.
-      * rewrite E in Hrow. rewrite Qplus_0_r in Hrow.
+        apply (Hclaim eq_refl i Hi).
+      * assert (E : xv a c * bigM I == 0) by (rewrite (Huns c Hbin Hc Hn); ring).
+        rewrite E in Hrow. rewrite Qplus_0_r in Hrow.
         eapply Qle_trans; [|exact Hrow]. apply Qle_lteq. right. apply Qsum_map_ext.
         intros i Hi. apply in_supporters in Hi. destruct Hi as [Hi _].
         specialize (Hlast i (proj2 (in_voters A i) Hi)). apply Qeqb_iff in Hlast.
@@ -753,7 +987,26 @@ Proof.
     + apply memb_false_In in Em. apply Qeqb_iff in Ham. split; [|contradiction].
       intros [_ Hx]. apply Qleb_iff in Hx. rewrite Ham in Hx. lra.
   - intros -> ->. apply Qleb_iff in Hex. exact Hex.
+  - intros R -> ->. simpl in Hbeta. simpl in Hlast. dand Hlast Hrow. rewrite forallb_forall in Hrow.
+    split; [|exact (relax_rows_range I R a Hbeta Hbin)].
+    intros c Hc. assert (Hc' := Hc). apply in_alloc_of in Hc'. destruct Hc' as [Hc' _].
+    specialize (Hrow c (proj2 (in_all_projects I c) Hc')). apply Qleb_iff in Hrow. simpl in Hrow.
+    assert (E : xv a c * relax_INF I == relax_INF I) by (rewrite (Hsel c Hbin Hc); ring).
+    rewrite E in Hrow. eapply Qle_trans; [apply Qsum_map_le|exact Hrow].
+    intros i Hi. apply in_supporters in Hi. destruct Hi as [Hi _]. apply (Hclaim eq_refl i Hi).
 Qed.
+
+Theorem encoding_sound I A alloc stable exh a :
+  ps_constraints I A alloc stable exh a = true -> binary I a ->
+  feasible I (alloc_of I a)
+  /\ price_system I A (alloc_of I a) (a_b a) (pv a) stable exh
+  /\ (forall W0, alloc = Some W0 -> forall c, (c < nproj I)%nat -> (In c (alloc_of I a) <-> In c W0))
+  /\ (alloc = None -> exh = false -> budget I <= a_b a * Qnat (length A)).
+Proof.
+  intros H Hbin. destruct (encoding_sound_g I A alloc stable exh None a H Hbin) as (H1 & H2 & H3 & H4 & _).
+  auto.
+Qed.
+
 
 (* ================================================================================================ *)
 (* the MIP encoding: completeness under the hypotheses the proof forces *)
@@ -826,10 +1079,10 @@ Proof.
   lra.
 Qed.
 
-Theorem encoding_complete I A W b pay stable exh alloc :
+Theorem encoding_complete_g I A W b pay stable exh alloc rel :
   Forall (fun c => 0 <= c) (costs I) ->
   wf_alloc I W ->
-  price_system I A W b pay stable exh ->
+  price_system_g I A W b pay (rcost I rel) stable exh ->
   0 <= b ->
   alloc = None \/ alloc = Some W ->
   (* the "+ 1" of row C0b: every project that does not fit misses the budget by at least 1 *)
@@ -838,12 +1091,14 @@ Theorem encoding_complete I A W b pay stable exh alloc :
   (* the "no empty allocation" row of the searched, non-exhaustive call *)
   (alloc = None -> exh = false -> budget I <= b * Qnat (length A)) ->
   (* the big-M rows C5 / S5 of selected projects *)
-  Qnat (length A) * b <= bigM I ->
+  (rel = None -> Qnat (length A) * b <= bigM I) ->
+  (* a relaxation: stable call, parameters within the ranges its rows impose *)
+  (forall R, rel = Some R -> stable = true /\ relax_range I A W b pay R) ->
   let a := asg_of I A W b pay stable in
-  ps_constraints I A alloc stable exh a = true /\ binary I a
+  ps_constraints_g I A alloc stable exh rel a = true /\ binary I a
   /\ (forall c, (c < nproj I)%nat -> (In c (alloc_of I a) <-> In c W)).
 Proof.
-  intros Hcost Hwf (H0a & H0b & HP0 & HC1 & HC2 & HC3 & HC4 & HC5) Hb Halloc Hgap Hlb HM a.
+  intros Hcost Hwf (H0a & H0b & HP0 & HC1 & HC2 & HC3 & HC4 & HC5) Hb Halloc Hgap Hlb HM Hrel a.
   assert (Hcnn : forall c, 0 <= cost I c) by (intros c; apply cost_nonneg; exact Hcost).
   assert (Hx : forall c, (c < nproj I)%nat -> xv a c = if memb c W then 1 else 0)
     by (intros c Hc; apply xv_asg; exact Hc).
@@ -886,16 +1141,14 @@ Proof.
   assert (Hsupp_len : forall c, (length (supporters A c) <= length A)%nat).
   { intros c. unfold supporters. eapply Nat.le_trans; [apply filter_len_le|].
     unfold voters. rewrite seq_length. apply Nat.le_refl. }
-  assert (Hbig_sel : forall c (g : nat -> Q), (forall i, (i < length A)%nat -> g i <= b) ->
+  assert (Hbig_sel : rel = None -> forall c (g : nat -> Q), (forall i, (i < length A)%nat -> g i <= b) ->
             Qsum (map g (supporters A c)) <= bigM I).
-  { intros c g Hg. eapply Qle_trans; [apply (Qsum_map_bound g (supporters A c) b)|].
+  { intros Hnone c g Hg. specialize (HM Hnone). eapply Qle_trans; [apply (Qsum_map_bound g (supporters A c) b)|].
     - intros i Hi. apply in_supporters in Hi. apply Hg. tauto.
     - eapply Qle_trans; [|exact HM]. apply Qmult_le_compat_r; [|exact Hb].
       apply Qnat_le. apply Hsupp_len. }
-  assert (HM0 : 0 <= bigM I).
-  { eapply Qle_trans; [|exact HM]. apply Qmult_le_0_compat; [apply Qnat_nonneg|exact Hb]. }
   split; [|split].
-  - unfold ps_constraints. cbv zeta. repeat (apply andb_true_iff; split).
+  - unfold ps_constraints_g. cbv zeta. repeat (apply andb_true_iff; split).
     + apply Qleb_iff. exact Hb.
     + apply forallb2_forall. intros i c Hi Hc. apply in_voters in Hi. apply in_all_projects in Hc.
       rewrite (Hpv i c Hi Hc). apply Qleb_iff. apply HP0; assumption.
@@ -944,7 +1197,10 @@ Proof.
       * apply forallb_forall. intros c Hc. apply in_all_projects in Hc.
         rewrite Hauxs, (Hx c Hc). apply Qleb_iff. specialize (Hcnn c).
         destruct (memb c W) eqn:Em.
-        -- pose proof (Hbig_sel c (stable_claim I b pay) Hclaim_b). lra.
+        -- destruct rel as [R|].
+           ++ destruct (Hrel R eq_refl) as [_ [Hsel _]]. apply memb_In in Em. specialize (Hsel c Em).
+              simpl rcost. simpl s5_inf. lra.
+           ++ pose proof (Hbig_sel eq_refl c (stable_claim I b pay) Hclaim_b). simpl rcost. simpl s5_inf. lra.
         -- apply memb_false_In in Em. specialize (HC5 c Hc Em). simpl in HC5. lra.
       * apply forallb_forall. intros i Hi. apply in_voters in Hi.
         rewrite (Haux i Hi), (Hsp i Hi).
@@ -952,12 +1208,48 @@ Proof.
       * apply forallb_forall. intros c Hc. apply in_all_projects in Hc.
         rewrite Hauxs, (Hx c Hc). apply Qleb_iff. specialize (Hcnn c).
         destruct (memb c W) eqn:Em.
-        -- pose proof (Hbig_sel c (leftover I b pay) Hleft_b). lra.
+        -- destruct rel as [R|]; [destruct (Hrel R eq_refl) as [Hst _]; discriminate Hst|].
+           pose proof (Hbig_sel eq_refl c (leftover I b pay) Hleft_b). lra.
         -- apply memb_false_In in Em. specialize (HC5 c Hc Em). simpl in HC5. lra.
+    + destruct rel as [R|]; [|reflexivity]. destruct (Hrel R eq_refl) as [_ [_ Hk]].
+      destruct R as [g|g|l|l|g l]; simpl.
+      * apply Qleb_iff. exact Hk.
+      * apply Qleb_iff. exact Hk.
+      * apply forallb_forall. intros c Hc. apply in_all_projects in Hc. rewrite (Hx c Hc).
+        destruct (Hk c Hc) as [Hlo Hcap]. destruct (memb c W).
+        -- repeat (apply andb_true_iff; split); apply Qleb_iff; lra.
+        -- repeat (apply andb_true_iff; split); apply Qleb_iff; lra.
+      * apply forallb_forall. intros c Hc. apply in_all_projects in Hc. apply Qleb_iff. apply Hk. exact Hc.
+      * destruct Hk as (Hg & Hnn & Hsum). repeat (apply andb_true_iff; split).
+        -- apply Qleb_iff. exact Hg.
+        -- apply forallb_forall. intros c Hc. apply in_all_projects in Hc. apply Qleb_iff. apply Hnn. exact Hc.
+        -- apply Qleb_iff. exact Hsum.
   - intros c Hc. rewrite (Hx c Hc). destruct (memb c W); [right|left]; reflexivity.
   - intros c Hc. rewrite in_alloc_of. rewrite (Hx c Hc). destruct (memb c W) eqn:Em.
     + apply memb_In in Em. split; [intros _; exact Em|]. intros _. split; [exact Hc|reflexivity].
     + apply memb_false_In in Em. split; [|contradiction]. intros [_ Hq]. discriminate Hq.
+Qed.
+
+Theorem encoding_complete I A W b pay stable exh alloc :
+  Forall (fun c => 0 <= c) (costs I) ->
+  wf_alloc I W ->
+  price_system I A W b pay stable exh ->
+  0 <= b ->
+  alloc = None \/ alloc = Some W ->
+  (* the "+ 1" of row C0b: every project that does not fit misses the budget by at least 1 *)
+  (exh = true -> 1 <= budget I /\
+      forall c, (c < nproj I)%nat -> ~ In c W -> budget I + 1 <= tcost I W + cost I c) ->
+  (* the "no empty allocation" row of the searched, non-exhaustive call *)
+  (alloc = None -> exh = false -> budget I <= b * Qnat (length A)) ->
+  (* the big-M rows C5 / S5 of selected projects *)
+  Qnat (length A) * b <= bigM I ->
+  let a := asg_of I A W b pay stable in
+  ps_constraints I A alloc stable exh a = true /\ binary I a
+  /\ (forall c, (c < nproj I)%nat -> (In c (alloc_of I a) <-> In c W)).
+Proof.
+  intros Hcost Hwf Hps Hb Halloc Hgap Hlb HM.
+  apply (encoding_complete_g I A W b pay stable exh alloc None Hcost Hwf Hps Hb Halloc Hgap Hlb (fun _ => HM)).
+  discriminate.
 Qed.
 
 (* ================================================================================================ *)
@@ -971,7 +1263,7 @@ Theorem infeasible_never_priceable I A W stable exh :
 Proof.
   intros Hinf. split; [|split].
   - intros b pay (H0a & _). unfold C0a in H0a. lra.
-  - intros b P. unfold validate_ps. cbv zeta.
+  - intros b P. unfold validate_ps, validate_ps_g. cbv zeta.
     assert (E : Qleb (tcost I W) (budget I) = false) by (apply Qleb_false_iff; exact Hinf).
     rewrite E. reflexivity.
   - intros [Hnd Hr] a Hbin. destruct (ps_constraints I A (Some W) stable exh a) eqn:E; [|reflexivity].
@@ -1026,10 +1318,10 @@ Proof.
 Qed.
 
 (* a price system stays one when the voter budget is lowered to anything that still covers every voter's spending *)
-Lemma ps_shrink I A W b pay stable exh b' :
-  price_system I A W b pay stable exh -> b' <= b ->
+Lemma ps_shrink_g I A W b pay rc stable exh b' :
+  price_system_g I A W b pay rc stable exh -> b' <= b ->
   (forall i, (i < length A)%nat -> spent I pay i <= b') ->
-  price_system I A W b' pay stable exh.
+  price_system_g I A W b' pay rc stable exh.
 Proof.
   intros (H0a & H0b & HP0 & HC1 & HC2 & HC3 & HC4 & HC5) Hle Hsp.
   refine (conj H0a (conj H0b (conj HP0 (conj HC1 (conj Hsp (conj HC3 (conj HC4 _))))))).
@@ -1037,6 +1329,12 @@ Proof.
   - unfold stable_claim. apply Q.max_le_compat_l. unfold leftover. lra.
   - unfold leftover. lra.
 Qed.
+
+Lemma ps_shrink I A W b pay stable exh b' :
+  price_system I A W b pay stable exh -> b' <= b ->
+  (forall i, (i < length A)%nat -> spent I pay i <= b') ->
+  price_system I A W b' pay stable exh.
+Proof. exact (ps_shrink_g I A W b pay (cost I) stable exh b'). Qed.
 
 Lemma paid_indicator I A W pay c :
   C3 I A W pay -> C4 I A W pay -> (c < nproj I)%nat ->
@@ -1169,8 +1467,8 @@ Proof.
   - exists 1, (pay_of [[1; 0]]).
     apply (witness_checker_sound I A [0%nat] 1 [[1; 0]] false true). vm_compute. reflexivity.
   - intros a. destruct (ps_constraints I A (Some [0%nat]) false true a) eqn:E; [|reflexivity]. exfalso.
-    unfold ps_constraints in E. cbv zeta in E.
-    dand E Hlast. dand E Hc4. dand E Hc3. dand E Hc2. dand E Hc1. dand E Hex. dand E Hc0a.
+    unfold ps_constraints, ps_constraints_g in E. cbv zeta in E.
+    dand E Hbeta. dand E Hlast. dand E Hc4. dand E Hc3. dand E Hc2. dand E Hc1. dand E Hex. dand E Hc0a.
     dand E Ham. clear - Ham Hex.
     unfold I, all_projects, nproj in Ham, Hex. simpl in Ham, Hex.
     dand Ham Hx1. dand Hx1 Hx2. apply Qeqb_iff in Ham, Hx1.
